@@ -34,7 +34,7 @@ PROPS = {
         verus=['c25_value', 'c25_wal'],
         pairs={},
         level_text='Proof, no bound on length or nesting: Verus proves the real PropertyValue::{encode,decode,decode_recursive} and WalRecord::{record_type,encode_body,decode_body} bodies against a written storage-format spec and a spec-level reference decoder (exec decoder refines it), proves the spec-level round trip by induction, proves absence of panics/overflow/out-of-bounds for every input byte string, and proves every pre-allocation is bounded by the input length; Kani proves bit-exact scalar round trips (all i64, all f64 bit patterns incl. NaN payloads and signed zeros) on the compiled crate.',
-        level_note='Not decided: round trip of Map-valued properties (BTreeMap iteration order is outside the spec; the Map decode arm is still proved panic-free), native stack depth of the recursive decoder on deeply nested lists (not a verifier notion; seen, recorded in DESIGN.md). Trusted: std to/from_le_bytes, String::from_utf8/as_bytes, slice to_vec/try_into wrappers, 64-bit usize, slice length <= isize::MAX; unit c25_wal uses the contracts of PropertyValue::encode/decode proved in unit c25_value. Kani cannot ingest any decoder that reads its tag back from a heap buffer (measured), so no counterexample route exists for the Verus obligations: violations there end with no-failing-input-found.',
+        level_note='Maps: the reference decoder recognises map encodings (count, then u32 key length + UTF-8 key + value per entry) and the real decoder is proved to accept every such byte string, to consume exactly its length and never to panic on any input; what is NOT decided is the content of the decoded map and the Map arm of the encoder (BTreeMap iteration order and key comparison on String are outside the spec), native stack depth of the recursive decoder on deeply nested lists (not a verifier notion; seen, recorded in DESIGN.md). Trusted: std to/from_le_bytes, String::from_utf8/as_bytes, slice to_vec/try_into wrappers, 64-bit usize, slice length <= isize::MAX; unit c25_wal uses the contracts of PropertyValue::encode/decode proved in unit c25_value. Kani cannot ingest any decoder that reads its tag back from a heap buffer (measured), so no counterexample route exists for the Verus obligations: violations there end with no-failing-input-found.',
         technique='contract-based deductive verification (Verus: exec code refines a spec decoder, format lemmas by induction, allocation-budget preconditions; Kani full-domain scalar harness)',
         design_ref='DESIGN.md §4 C25',
     ),
